@@ -263,6 +263,10 @@ def judge(w, case):
                     return
             import threading
             threading.Thread(target=feed, daemon=True).start()
+    elif kind == "descriptor-stacks":
+        # a descriptor of the older kind: stacks, no targets - the context shows exactly that
+        text = VALID_BP_TOML[:VALID_BP_TOML.index("[[targets]]")] + f'[[stacks]]\nid = "{case["stack"]}"\n'
+        open(w.p("bp", "buildpack.toml"), "w").write(text)
     elif kind == "store-absent":
         pass
     elif kind == "store-empty-metadata":
@@ -415,7 +419,10 @@ def judge(w, case):
         if phase == "build" and c["store"] is not None:
             bad("store-invented", f"no store.toml but context.store = {c['store']}")
     d = c["descriptor"]
-    if (d["id"], d["version"], d["api"]) != ("verif/vb", "1.2.3", "0.10") or d["targets"] != [{"os": "linux", "arch": "amd64", "variant": None, "distros": []}]:
+    if kind == "descriptor-stacks":
+        if d["targets"] != [] or len(d.get("stacks", [])) != 1 or case["stack"] not in d["stacks"][0]:
+            bad("descriptor-altered", f"buildpack.toml declares the stack {case['stack']!r} and no targets; the context has targets {d['targets']} and stacks {d.get('stacks')}")
+    elif (d["id"], d["version"], d["api"]) != ("verif/vb", "1.2.3", "0.10") or d["targets"] != [{"os": "linux", "arch": "amd64", "variant": None, "distros": []}]:
         bad("descriptor-altered", f"descriptor in context {d}")
     return v, outcome
 
@@ -489,6 +496,9 @@ def cases(thorough):
     for where in ("plan", "store"):
         for val in (("s", "x"), ("a", [("i", 1), ("s", "y" * 70000)])):
             out.append({"kind": "toml", "where": where, "value": tuple_to_json(val), "via": "fifo"})
+    for stack in ("*", "io.buildpacks.stacks.bionic", "io.buildpacks.stacks.jammy"):
+        for phase in ("build", "detect"):
+            out.append({"kind": "descriptor-stacks", "stack": stack, "phase": phase})
     out.append({"kind": "store-absent"})
     # a store with an empty metadata table is a store (not "no store"); a zero-length store.toml lacks the mandatory table
     out.append({"kind": "store-empty-metadata"})
